@@ -32,7 +32,7 @@ import Driver.Netns
 open Corerad
 
 def handlers : List (String × (List String → List String → Option Verdict)) := [
-  ("md", Driver.C05.md), ("mloop", Driver.C05.mloop),
+  ("md", Driver.C05.md), ("mloop", Driver.C05.mloop), ("mstall", Driver.C05.mstall),
   ("pl", Driver.C16.pl), ("rl", Driver.C16.rl),
   ("wp", Driver.Wild.wp), ("wperr", Driver.Wild.wperr),
   ("wd", Driver.Wild.wd), ("wderr", Driver.Wild.wderr), ("wdstatic", Driver.Wild.wdstatic),
@@ -40,13 +40,13 @@ def handlers : List (String × (List String → List String → Option Verdict))
   ("cfg", Driver.Config.cfg), ("fuzz", Driver.Config.fuzz), ("unk", Driver.Config.unk), ("fs", Driver.Config.fs),
   ("ra1", Driver.Config.ra1), ("ra3", Driver.Config.ra3), ("ra4", Driver.Config.ra4),
   ("ws", Driver.C19.ws), ("wsu", Driver.C19.wsu), ("wsc", Driver.C19.wsc),
-  ("vr", Driver.C12.vr),
+  ("vr", Driver.C12.vr), ("cfgmut", Driver.C12.cfgmut), ("vburst", Driver.C12.vburst),
   ("mon", Driver.C18.mon),
   ("sch6", Driver.Sched.sch6), ("sch7", Driver.Sched.sch7),
   ("adv6", Driver.Sched.adv6), ("adv7", Driver.Sched.adv7), ("rein", Driver.Sched.rein), ("reinlla", Driver.Sched.reinlla), ("flap", Driver.Sched.flap), ("tfl", Driver.Sched.tfl), ("adv9", Driver.Sched.adv7),
   ("lst", Driver.C09.lst),
   ("bt", Driver.C20.bt), ("sv", Driver.C20.sv),
-  ("shut", Driver.C08.shut),
+  ("shut", Driver.C08.shut), ("cw", Driver.C08.cw),
   ("d10", Driver.Dialer.d10), ("d11", Driver.Dialer.d11), ("rd", Driver.Dialer.rd), ("rdm", Driver.Dialer.rdm), ("sc", Driver.Sysctl.sc), ("ns", Driver.Netns.ns), ("nsw", Driver.Netns.nsw), ("nsa", Driver.Netns.nsa), ("nsb", Driver.Netns.nsb), ("scc", Driver.Sysctl.scc),
   ("srv", Driver.C20Serve.srv), ("http", Driver.C20Serve.http), ("grp", Driver.C10.grp), ("grpq", Driver.C10Q.grpq),
   ("pth", Driver.C04.pth),
